@@ -74,7 +74,13 @@ class FakeGenerator:
         self.state_size = len(self.arglist_state)
         self.control_size = len(self.arglist_control)
         self.calibration_size = len(self.arglist_calibration)
-        self.sensorlist = [(n, {f"{n}_r{i}": None for i in range(sz)}, {}) for n, sz in sorted(v.sensors)]
+        # one entry per sensor, shaped like the real generator's (a plain triple, or the namedtuple the generator builds: see sensor_shape)
+        names, roles = _SHAPE.get("shape", ((), ("name", "model", "noise")))
+        rec = __import__("collections").namedtuple("SensorRec", names) if names else (lambda *a: tuple(a))
+        self.sensorlist = []
+        for n, sz in sorted(v.sensors):
+            byrole = {"name": n, "model": {f"{n}_r{i}": None for i in range(sz)}, "noise": {}}
+            self.sensorlist.append(rec(*[byrole[r] for r in roles]))
         self._readings = [FakeReading(n, sz) for n, sz in sorted(v.sensors)]
 
     def enable_control(self):
@@ -93,6 +99,40 @@ class FakeGenerator:
 
 
 _CACHE: Dict[Any, Any] = {}
+_SHAPE: Dict[str, Any] = {}
+
+
+def sensor_shape(ctx: core.Ctx):
+    """field names and roles of the entries of cpp.ExtendedKalmanFilter.sensorlist, from the layout interpreter's evaluation of __init__
+    (the stand-in generator must present the same record shape to the fragment code as the real one)"""
+    key = ("shape", ctx.repo)
+    if key in _CACHE:
+        return _CACHE[key]
+    from . import genlayout
+    from .values import SeqV, MapV
+    out = ((), ("name", "model", "noise"))
+    try:
+        g = genlayout.GenInfo(ctx)
+        v = g.ekf.attrs.get("sensorlist")
+        if isinstance(v, SeqV) and isinstance(v.elem, tuple) and v.elem and v.elem[0] == "TUPLE":
+            tags = v.elem[1]
+            names = tuple(v.elem[2]) if len(v.elem) >= 4 else ()
+            roles = []
+            for t in tags:
+                if t == "key":
+                    roles.append("name")
+                elif isinstance(t, tuple) and len(t) == 2 and isinstance(t[1], MapV):
+                    roles.append("model" if t[1].kind == "sensor" else "noise")
+                else:
+                    roles.append("?")
+            if sorted(roles) == ["model", "name", "noise"]:
+                out = (names, tuple(roles))
+            else:
+                raise core.AnalysisError(f"cpp.ExtendedKalmanFilter.sensorlist entries {tags} are not (name, model, noise) records")
+    except core.AnalysisError:
+        raise
+    _CACHE[key] = out
+    return out
 
 
 class Witness:
@@ -101,6 +141,12 @@ class Witness:
         self.frag = ctx.parse(FRAG)
         self.cpp = ctx.parse(CPP)
         self.tpl_cache: Dict[str, str] = {}
+        if not _SHAPE.get("busy"):
+            _SHAPE["busy"] = True
+            try:
+                _SHAPE["shape"] = sensor_shape(ctx)
+            finally:
+                _SHAPE["busy"] = False
 
     def template(self, name, inserts):
         rel = f"{TEMPLATES}/{name}"
